@@ -310,6 +310,7 @@ func predSplit(c splitCase, o *evid.Obs) error {
 	}
 	classifyRegexAndTemplates(e, split, upRows, &fl, o)
 	noParser := classifyGetterFacing(c, e, split, upRows, o)
+	classifyDropAndExtremes(e, split, upRows, finalRows, o)
 	o.Tag("batching:"+chunkClass(c.Chunks), "batching:"+chunkClass(c.Chunks2))
 	twins := concatTwins(afterBreaker) || concatTwins(finalRows)
 	if twins {
@@ -486,6 +487,31 @@ func predSplit(c splitCase, o *evid.Obs) error {
 			if d != "" {
 				return fmt.Errorf("%s\n the line filter %s selects differently in-process than in front of the split (%s; that result taken as reference):%s",
 					describe(), e.Stages[split+1].String(), e2.String(), d)
+			}
+		}
+	}
+
+	// ---- metamorphic: a drop right behind a line_format that does not read the dropped labels
+	// means the same in front of it (SQL side, here the reference). Log queries only: behind the
+	// SQL part series keep their stored fingerprints (C08's known deviation).
+	if !metric && breaker.Kind == refeval.KLineFormat && split+1 < len(e.Stages) && e.Stages[split+1].Kind == refeval.KDrop {
+		reads := false
+		for _, prm := range e.Stages[split+1].Params {
+			if strings.Contains(breaker.Val, "{{."+prm.Name+"}}") {
+				reads = true
+			}
+		}
+		if !reads {
+			e2 := *e
+			e2.Stages = append([]refeval.Stage(nil), e.Stages...)
+			e2.Stages[split], e2.Stages[split+1] = e2.Stages[split+1], e2.Stages[split]
+			r3 := runChain(e2.String(), p, mkUpOf(upstreamOf(e2.Stages[:split+1]), c.Chunks))
+			if r3.planErr == nil && !r3.noSplit && r3.queryErr == nil && r1.queryErr == nil && (c.Limit == 0 || int(c.Limit) >= len(upRows)) {
+				o.Tag("drop-moved-across-split")
+				if d := diffKeys(logKeys(clientView(r3.entries)), logKeys(v1)); d != "" {
+					return fmt.Errorf("%s\n the stage %s acts differently in-process than in front of the split (%s; that result taken as reference):%s",
+						describe(), e.Stages[split+1].String(), e2.String(), d)
+				}
 			}
 		}
 	}
@@ -738,6 +764,117 @@ func firstRunName(c splitCase) string {
 		return "database/sql rows through the real ClickhouseGetterPlanner.Scan"
 	}
 	return fmt.Sprintf("planted upstream with batches %v", c.Chunks)
+}
+
+// classifyDropAndExtremes tags drop stages that name a label more than once (and whether that
+// matters for the data: a drop read as a name->value map, last pair winning, would leave other
+// labels) and vector min / max over groups whose values are all <= 0.
+func classifyDropAndExtremes(e *refeval.Expr, split int, upRows, finalRows []refeval.Row, o *evid.Obs) {
+	for off, st := range e.Stages[split+1:] {
+		if st.Kind != refeval.KDrop {
+			continue
+		}
+		count := map[string]int{}
+		bare := map[string]bool{}
+		vals := map[string]map[string]bool{}
+		for _, prm := range st.Params {
+			count[prm.Name]++
+			if !prm.HasVal {
+				bare[prm.Name] = true
+			} else {
+				if vals[prm.Name] == nil {
+					vals[prm.Name] = map[string]bool{}
+				}
+				vals[prm.Name][prm.Val] = true
+			}
+		}
+		repeated := false
+		for name, n := range count {
+			if n < 2 {
+				continue
+			}
+			repeated = true
+			switch {
+			case bare[name] && len(vals[name]) > 0:
+				o.Tag("drop:repeated-name:bare+valued")
+			case len(vals[name]) >= 2:
+				o.Tag("drop:repeated-name:several-values")
+			default:
+				o.Tag("drop:repeated-name:duplicate")
+			}
+		}
+		if !repeated {
+			continue
+		}
+		o.Tag("drop:repeated-name")
+		// last-pair-wins reading
+		last := map[string]refeval.Param{}
+		for _, prm := range st.Params {
+			last[prm.Name] = prm
+		}
+		at, _ := refeval.RunStages(e.Stages[split:split+1+off], cloneRows(upRows), &refeval.Flags{})
+		for _, r := range at {
+			for name := range count {
+				v, ok := r.Labels[name]
+				if !ok {
+					continue
+				}
+				all := bare[name] || vals[name][v]
+				lp := last[name]
+				mapped := !lp.HasVal || lp.Val == v
+				if all != mapped {
+					o.Tag("drop:repeated-name-decides-for-some-entry")
+					return
+				}
+			}
+		}
+	}
+	if e.AggFn == "min" || e.AggFn == "max" {
+		var rows []refeval.Row
+		for _, r := range finalRows {
+			if r.Err == "" {
+				rows = append(rows, r)
+			}
+		}
+		e1 := *e
+		e1.AggFn, e1.AggGroup, e1.AggCmp = "", nil, nil
+		var tfl refeval.Flags
+		inner := refeval.RangeBuckets(&e1, rows, &tfl)
+		type gk struct {
+			k  string
+			ts int64
+		}
+		n := map[gk]int{}
+		pos := map[gk]bool{}
+		for _, s := range inner {
+			lbl := s.Labels
+			if e.AggGroup != nil {
+				lbl = map[string]string{}
+				in := map[string]bool{}
+				for _, l := range e.AggGroup.Labels {
+					in[l] = true
+				}
+				for k, v := range s.Labels {
+					if in[k] != e.AggGroup.Without {
+						lbl[k] = v
+					}
+				}
+			}
+			for _, sm := range s.Samples {
+				k := gk{refeval.LabelsKey(lbl), sm.TsNs}
+				n[k]++
+				if sm.Value > 0 {
+					pos[k] = true
+				}
+			}
+		}
+		for k, c := range n {
+			if c >= 2 && !pos[k] {
+				o.Tag("vector-" + e.AggFn + ":group-of-several-values-all-nonpositive")
+				break
+			}
+		}
+	}
 }
 
 // checkLimit: got must be `limit` of the surviving rows: everything strictly before the cut
